@@ -106,7 +106,7 @@ static std::vector<std::string> cpu_gen(const GenArgs &ga) {
   auto name = [&]() -> std::string {
     int k = (int)r.below(10);
     if (k < 8) return kTargets[k];
-    return k == 8 ? "nosuchtarget" : "SSE";
+    return k == 8 ? (r.chance(1, 2) ? "nosuchtarget" : "EMPTY") : "SSE";   // EMPTY: the variable is set to the empty string
   };
   if (e < 3) backend = name();
   else if (e < 6) target = name();
@@ -207,6 +207,8 @@ static void cpu_run(const std::vector<std::string> &plan, Child &c) {
   std::string backend = kv(env_w, "ORC_BACKEND", "-"), otarget = kv(env_w, "ORC_TARGET", "-"), code = kv(env_w, "ORC_CODE", "-");
   setenv("ORC_VERIF_CPUID", strf("%x:%x:%x:%x:%x:%x:%x:%x:%x", vendor_code(cpu.vendor), cpu.maxleaf, cpu.l1ecx, cpu.l1edx, cpu.l7ebx,
                                  cpu.extmax, cpu.e1ecx, cpu.e1edx, cpu.xcr0).c_str(), 1);
+  if (backend == "EMPTY") backend = "";
+  if (otarget == "EMPTY") otarget = "";
   if (backend != "-") setenv("ORC_BACKEND", backend.c_str(), 1); else unsetenv("ORC_BACKEND");
   if (otarget != "-") setenv("ORC_TARGET", otarget.c_str(), 1); else unsetenv("ORC_TARGET");
   if (code != "-") setenv("ORC_CODE", code.c_str(), 1); else unsetenv("ORC_CODE");
@@ -254,8 +256,8 @@ static void cpu_run(const std::vector<std::string> &plan, Child &c) {
   auto tname = [](OrcTarget *t) { return std::string(t ? t->name : ""); };
   // (a) the variable the code reads and (b) the documented one are judged separately
   std::string expect = m.def;
-  bool bk_exists = backend != "-" && orc_target_get_by_name(backend.c_str()) != nullptr;
-  bool tg_exists = otarget != "-" && orc_target_get_by_name(otarget.c_str()) != nullptr;
+  auto is_target_name = [](const std::string &n) { for (auto t : kTargets) if (n == t) return true; return false; };
+  bool bk_exists = is_target_name(backend), tg_exists = is_target_name(otarget);
   OrcTarget *def = orc_target_get_default();
   c.event("default=%s (model %s) ORC_BACKEND=%s ORC_TARGET=%s", tname(def).c_str(), m.def.c_str(), backend.c_str(), otarget.c_str());
   c.count("boot.default_" + (tname(def).empty() ? std::string("none") : tname(def)));
